@@ -222,6 +222,47 @@ pub fn strategy_c15() -> impl Strategy<Value = Case> {
         })
 }
 
+/// A listener that follows some members of a group whose first member's command file lacks the
+/// x bit: which members are skipped is decided by the plan, not by what a listener follows.
+pub fn notexec_cases(thorough: bool) -> Vec<Case> {
+    let mut v = vec![];
+    let shapes: &[(&[usize], u16)] = if thorough { &[(&[3], 0), (&[2, 3], 1), (&[4], 0), (&[1, 4], 1), (&[3, 2], 0), (&[2, 2, 3], 2)] } else { &[(&[3], 0), (&[2, 3], 1), (&[4], 0)] };
+    for (layers, layer) in shapes {
+        let width = layers[*layer as usize];
+        // follow the last member, the second member, or the second and the last
+        for follow in [vec![width - 1], vec![1], vec![1, width - 1]] {
+            let mut follow = follow;
+            follow.dedup();
+            v.push(Case {
+                plan: Plan {
+                    layers: layers.to_vec(),
+                    picks: vec![0, 1, 2, 3, 4, 5, 6, 7],
+                    ncmd: 1,
+                    tasks: vec![(2, 1, 30), (1, 2, 20), (3, 0, 10)],
+                    fail: None,
+                    unterminated: 0,
+                    split_lines: 0,
+                    bursts: 0,
+                    long_lines: 0,
+                    late_bursts: 0,
+                    quiet_ms: 0,
+                    // picks are mapped monotonically: (layer * 65536 / layers) lands in that layer
+                    not_exec: Some((((*layer as u32 * 65536 + 32768) / layers.len() as u32) as u16, 0)),
+                },
+                listener: Listener::RealTail(Filters {
+                    stdout: true,
+                    stderr: true,
+                    targets: follow.iter().map(|m| format!("l{}t{}", layer, m)).collect(),
+                    commands: vec![],
+                }),
+                fault: Fault::None,
+                lock_delay_ms: 0,
+            });
+        }
+    }
+    v
+}
+
 pub struct Setup {
     pub cfg: ConfigSpec,
     pub commands: Vec<String>,
@@ -1130,6 +1171,12 @@ non-trivial = the listener was connected and died in the middle of the run; dist
     ctx.assumptions = vec!["a listener that stays connected but stops reading is not generated (not in the quantifier)".into()];
     let n = ctx.n(80, 1500);
     ctx.drive("pair", strategy_c15, n, check_c15);
+    ctx.drive_all(
+        "listener-follows-members-behind-a-not-executable-one",
+        notexec_cases(ctx.thorough()),
+        "one group whose first member's command file lacks the x bit, a listener that follows the second and/or the last member",
+        check_c15,
+    );
     ctx.drive_all(
         "failure-under-contention",
         cancel_cases(ctx.thorough()),
